@@ -33,6 +33,7 @@ type User struct {
 	Released bool
 	Approvals int
 	PausedByUser bool
+	retryAt time.Time
 	ExitUnclaimed bool // an exit was requested while no BatchRelease held the workload
 	ReissuedID bool // rollout-id changed without a template change during the release
 	Early bool // a revision change was issued while the rollout was still initialising
@@ -126,13 +127,22 @@ func (u *User) setVersion(v int) error {
 	return err
 }
 
+func (u *User) backoff() {
+	u.retryAt = u.sim.Now().Add(500 * time.Millisecond)
+	u.sim.After(501*time.Millisecond, func() {})
+}
+
 func (u *User) Options(s *Sim) []option {
+	if s.Now().Before(u.retryAt) {
+		return nil // the API server refused the last request (webhook unavailable): retry a bit later
+	}
 	switch u.phase {
 	case 0:
 		return []option{u.step("create-rollout", func() {
 			if err := u.h.Create(u.ctx, u.sc.buildRollout()); err != nil {
 				if apierrors.IsInternalError(err) {
-					return // webhook down: retry
+					u.backoff() // webhook down: retry
+					return
 				}
 				panic(fmt.Sprintf("scenario rollout rejected: %v", err))
 			}
@@ -148,6 +158,7 @@ func (u *User) Options(s *Sim) []option {
 		}
 		return []option{u.step("release-v2", func() {
 			if err := u.setVersion(2); err != nil {
+				u.backoff()
 				return
 			}
 			u.Released = true
@@ -253,7 +264,7 @@ func (u *User) fire(ev *UserEvent) {
 	webhookDown := func(err error) bool {
 		if err != nil && apierrors.IsInternalError(err) {
 			retry = true
-			s.After(500*time.Millisecond, func() {})
+			u.backoff()
 			return true
 		}
 		return false
